@@ -1,7 +1,8 @@
 package verifh
 
 import (
-	"bytes"
+	"encoding/json"
+	"os"
 	"fmt"
 	"image"
 
@@ -36,7 +37,7 @@ func genAnimParams(r *RNG, lossless bool, mixedPct int, alphaPct int, tier strin
 	}
 	p.Parallel = r.Bool()
 	p.Spec.Reuse = r.Pct(25)
-	// ReuseRGBA is not drawn yet: see DESIGN.md section 11 (unclassified C18 report)
+	p.Spec.ReuseRGBA = p.Spec.Reuse && r.Pct(50)
 	return p
 }
 
@@ -332,26 +333,35 @@ func (propC18) Execute(pp any, x *X) *Violation {
 	if !ok {
 		return v
 	}
-	// expected pictures: consecutive byte-identical inputs are merged by the encoder
-	var ref []*image.NRGBA
-	for i, c := range o.canvases {
-		if i > 0 && bytes.Equal(o.canvases[i-1].Pix, c.Pix) {
-			continue
+	// The statement is about alpha only, so both sides are reduced to their sequence of
+	// distinct alpha planes (consecutive pictures with the same alpha plane collapsed):
+	// which inputs the encoder merges or splits then does not matter for the alignment.
+	sameAlpha := func(a, b *image.NRGBA) bool { return alphaPlaneDiff(a, b) == "" }
+	collapseAlpha := func(cs []*image.NRGBA) []*image.NRGBA {
+		var out []*image.NRGBA
+		for _, c := range cs {
+			if len(out) > 0 && sameAlpha(out[len(out)-1], c) {
+				continue
+			}
+			out = append(out, c)
 		}
-		ref = append(ref, c)
+		return out
 	}
-	if len(ref) != len(o.pb.Canvases) {
-		x.Count("unaligned_playback_not_judged", 1)
-		return nil
-	}
+	ref, got := collapseAlpha(o.canvases), collapseAlpha(o.pb.Canvases)
 	mode := "lossy"
 	if p.Spec.AllowMixed {
 		mode = "mixed"
 	}
 	for i := range ref {
-		if d := alphaPlaneDiff(ref[i], o.pb.Canvases[i]); d != "" {
-			return &Violation{Prop: "C18", Sig: "alpha-lost:" + mode, Detail: fmt.Sprintf("%s: picture %d of %d: %s", p.Spec, i, len(ref), d)}
+		if i >= len(got) {
+			break
 		}
+		if d := alphaPlaneDiff(ref[i], got[i]); d != "" {
+			return &Violation{Prop: "C18", Sig: "alpha-lost:" + mode, Detail: fmt.Sprintf("%s: alpha plane %d of %d (consecutive pictures with equal alpha collapsed): %s", p.Spec, i, len(ref), d)}
+		}
+	}
+	if len(ref) != len(got) {
+		return &Violation{Prop: "C18", Sig: "alpha-sequence:" + mode, Detail: fmt.Sprintf("%s: the inputs show %d distinct alpha planes in a row, the playback %d", p.Spec, len(ref), len(got))}
 	}
 	x.Count("animations_alpha_verified_"+mode, 1)
 	if p.Spec.Alpha != "opaque" {
@@ -363,4 +373,64 @@ func (propC18) Execute(pp any, x *X) *Violation {
 func (propC18) Describe() PropDoc {
 	return animDoc("one run = one seeded history of 1-8 AddFrame calls (90 % with binary or graded transparency; same frame mutations as C08 incl. corners / erase / toggle) on the animation encoder in lossy mode or mixed-codec mode (50 %), then Close and playback; the alpha plane of every played-back canvas must equal the alpha plane of the corresponding input. distinct = distinct (spec, explored-world trace hash); non-trivial = at least two AddFrame calls.",
 		[]string{"animations_alpha_verified_lossy", "animations_alpha_verified_mixed", "animations_with_transparency_verified", "alternate_codec_failure"})
+}
+
+// animDump (development aid): re-runs the animation history of a replay file and prints
+// the source and played-back alpha planes and the stored frames.
+func animDump(args []string) int {
+	b, err := os.ReadFile(args[0])
+	if err != nil {
+		return 2
+	}
+	var rf ReplayFile
+	json.Unmarshal(b, &rf)
+	var p AnimParams
+	json.Unmarshal(rf.Params, &p)
+	for _, a := range args[1:] {
+		switch a {
+		case "norgba":
+			p.Spec.ReuseRGBA = false
+		case "noreuse":
+			p.Spec.Reuse, p.Spec.ReuseRGBA = false, false
+		}
+	}
+	warmUp()
+	inputs, canv := p.Spec.Canvases()
+	var res *AnimEncodeResult
+	var pb *PlaybackResult
+	x := &X{Stats: NewStats(), Quiet: true}
+	x.Solo(1, func() {
+		res = EncodeAnim(p.Spec, inputs, WriteFault{})
+		if res.AddErr == nil && res.CloseErr == nil {
+			pb = Playback(res.Data, false)
+		}
+	})
+	fmt.Println("spec:", p.Spec.String(), "reuse", p.Spec.Reuse, "rgba", p.Spec.ReuseRGBA, "adderr", res.AddErr, "closeerr", res.CloseErr)
+	alpha := func(c *image.NRGBA) string {
+		s := ""
+		for i := 3; i < len(c.Pix); i += 4 {
+			s += fmt.Sprintf("%d ", c.Pix[i])
+		}
+		return s
+	}
+	for i, c := range canv {
+		fmt.Printf("input %d (%T %v) alpha: %s rgb0: %v\n", i, inputs[i], inputs[i].Bounds(), alpha(c), c.Pix[:4])
+	}
+	if pb == nil {
+		return 0
+	}
+	fmt.Println("playback err:", pb.Err, pb.Stage)
+	if pb.Anim != nil {
+		for i, f := range pb.Anim.Frames {
+			fmt.Printf("stored frame %d: off (%d,%d) dur %v blend %v dispose %v hasalpha %v", i, f.OffsetX, f.OffsetY, f.Duration, f.Blend, f.Dispose, f.HasAlpha)
+			if f.Image != nil {
+				fmt.Printf(" image %v alpha: %s", f.Image.Bounds(), alpha(ToNRGBA(f.Image)))
+			}
+			fmt.Println()
+		}
+	}
+	for i, c := range pb.Canvases {
+		fmt.Printf("played %d dur %d alpha: %s\n", i, pb.Durations[i], alpha(c))
+	}
+	return 0
 }
